@@ -74,8 +74,18 @@ EXPLANATION = (
     "or the same-class methods it calls) an attribute is still stored that decides which segment _fetch_next asks for or "
     "whether the read is complete (_offset, _size), no public producer method (pause/resume/stopProducing) has a way to "
     "get_segment made of direct self.m() calls only (eventually()/callbacks end the stack) whose tests are open given the "
-    "constants the calling method and the route have stored (a busy flag set around the call closes it).  "
-    "Undecided: whether a foreign call made between the identity check and the store can re-enter the node and change the "
+    "constants the calling method and the route have stored (a busy flag set around the call closes it); "
+    "(16) the writer (the one method that writes to the consumer: it checks the segment against the read's position and "
+    "advances it) is entered as the success callback of the segment's own request; for every other route into it (a method "
+    "that calls it or hands it on outside the registrations on the segment Deferred, e.g. for a segment held back while the "
+    "consumer is paused) no CFG path of any Segmentation method, consistent with the None / not-None tests of self attributes "
+    "on it, lets a fetch route (a method from which get_segment is reachable other than through the writer) run ahead of the "
+    "hand-over: a direct fetch before a direct or scheduled hand-over, a direct fetch after a scheduled hand-over, or a "
+    "scheduled fetch before a scheduled hand-over (the position still points at the held segment, so the same segment is "
+    "requested again and the duplicate is rejected once the position has moved).  "
+    "Undecided: for (16): that a held segment is handed over exactly once (the holder being cleared), hand-over and fetch "
+    "that are started by different activations or through nested functions, different schedulers with different latencies, "
+    "a design that keeps the request recorded while its segment is held; whether a foreign call made between the identity check and the store can re-enter the node and change the "
     "slot (log.msg, seg_ev.*, fetcher.stop/add_shares are assumed not to), continuations registered on the node's behalf "
     "outside DownloadNode (ShareFinder / Share call got_shares, no_more_shares: they address whichever fetcher is current), "
     "generator-style gaps (none in the class), a guard hidden in a helper that is not a single `return <test>` (reported as "
@@ -100,7 +110,8 @@ TECHNIQUE = ("static analysis: who-may-write/call sweeps, CFG gate rules on the 
              "continuation discovery (Deferred registrations / eventually) with a CFG x (owned, empty) typestate of the fetcher slot "
              "whose identity-test edges are judged against reaching-definition captures taken before the asynchronous gap, "
              "equality semantics of the handle class (MRO / decorator reading) with a must-precede rule on the notifying call, "
-             "same-stack call routes with constant propagation of gate flags from the consumer call-out")
+             "same-stack call routes with constant propagation of gate flags from the consumer call-out, "
+             "now/later ordering automaton over the CFG for fetch routes versus second routes into the writer")
 
 NODE = "immutable.downloader.node:DownloadNode"
 SEG = "immutable.downloader.segmentation:Segmentation"
@@ -2878,6 +2889,200 @@ def run_reentrancy(ctx, r):
             break
 
 
+# ------------------------------------------------------------------ a second route into the writer (C04.16)
+def _method_refs(g, n, wanted):
+    """[(method, 'now' | 'later', ast)] for the same-class methods of `wanted` ({qual: FuncInfo}) that node n of g
+    calls (`self.m(..)`: now) or hands on as a value (to eventually / callLater / addCallback..: later; inside a lambda:
+    later; to anything else, e.g. maybeDeferred: now)."""
+    out = []
+
+    def walk(e, later):
+        if isinstance(e, ast.Lambda):
+            walk(e.body, True)
+            return
+        if isinstance(e, (ast.FunctionDef, ast.AsyncFunctionDef, ast.ClassDef)):
+            return
+        if isinstance(e, ast.Call):
+            m = self_callee(g, e)
+            if m is not None and m.qual in wanted:
+                out.append((m, "later" if later else "now", e))
+            else:
+                walk(e.func, later)
+            sched = call_tail(e) in SCHEDULERS or call_tail(e) in REG_TAILS
+            for a in list(e.args) + [k.value for k in e.keywords]:
+                if isinstance(a, ast.Starred):
+                    a = a.value
+                mv = self_method_value(g, a)
+                if mv is not None and mv.qual in wanted:
+                    out.append((mv, "later" if (later or sched) else "now", a))
+                else:
+                    walk(a, later)
+            return
+        if isinstance(e, ast.Attribute) and isinstance(e.ctx, ast.Load):
+            mv = self_method_value(g, e)
+            if mv is not None and mv.qual in wanted:
+                out.append((mv, "later" if later else "now", e))
+                return
+        for ch in ast.iter_child_nodes(e):
+            walk(ch, later)
+    for e in node_exprs(n):
+        walk(e, False)
+    return out
+
+
+def run_second_route(ctx, r):
+    """The writer advances the read's position; it is entered as the success callback of the request that fetched the
+    segment.  Any other route that hands it a segment (a segment held back while paused, ..) must reach it before a fetch
+    route of the same activation can ask the node for a segment (C04.16)."""
+    idx = ctx.idx
+    ci, funcs, F, gc, gn, reach = seg_fetcher(idx)
+    by_qual = {g.qual: g for g in funcs}
+    writers = [g for g in funcs if any(isinstance(c.func, ast.Attribute) and nf(c.func.value) == "self._consumer"
+                                       for c in calls_in_func(g, "write"))]
+    if len(writers) != 1:
+        raise AnchorVanished("Segmentation: expected one method that writes to the consumer, found %d" % len(writers))
+    W = writers[0]
+    dname = segment_deferred(F, gn, gc)
+    regs = registrations(F, dname)
+    reg_nodes = set()
+    for reg in regs:
+        for t in (reg.target, reg.errtarget):
+            if t is not None:
+                reg_nodes |= {id(x) for x in ast.walk(t)}
+    if not any(self_method_value(F, t) is W for reg in regs for t in (reg.target, reg.errtarget) if t is not None):
+        r.site(F, gc, "the writer is not on the segment Deferred (C04.11 reports it)")
+        return
+    refs_cache = {}
+
+    def refs(g, n):
+        key = (g.qual, n.id)
+        if key not in refs_cache:
+            refs_cache[key] = [(m, when, a) for (m, when, a) in _method_refs(g, n, by_qual) if id(a) not in reg_nodes]
+        return refs_cache[key]
+
+    def closure(seed, only_now):
+        out = dict(seed)
+        grew = True
+        while grew:
+            grew = False
+            for g in funcs:
+                if g.qual in out:
+                    continue
+                for n in g.cfg().nodes:
+                    if any(m.qual in out and (when == "now" or not only_now) for (m, when, _a) in refs(g, n)):
+                        out[g.qual] = g
+                        grew = True
+                        break
+        return out
+    deliv = closure({W.qual: W}, False)               # methods that hand a segment to the writer, outside the Deferred chain
+    deliv_sync = closure({W.qual: W}, True)           # .. on the caller's stack
+    fetch = {q: g for q, g in reach.items() if q not in deliv}
+    fetch_sync = {q: g for q, g in closure({F.qual: F}, True).items() if q in fetch}
+    others = sorted(q for q in deliv if q != W.qual)
+    r.site(F, gc, "the writer %s is entered through the segment Deferred; other routes into it: %s" % (
+        short(W), ", ".join(by_qual[q].name for q in others) or "none"))
+    if not others and not any(m is W for g in funcs for n in g.cfg().nodes for (m, _w, _a) in refs(g, n)):
+        return
+    fnorms = {}
+
+    def fact(g, q, lab):
+        if g.qual not in fnorms:
+            fnorms[g.qual] = FlowNorm(g)
+        return fnorms[g.qual].edge_fact(q, lab)
+
+    def none_fact(f):
+        """(attribute, 'none' | 'set') told by an edge fact about a self attribute, else None."""
+        if not f:
+            return None
+        if f[0] in ("truth", "false") and re.match(r"^self\.\w+$", f[1] or ""):
+            return (f[1], "set" if f[0] == "truth" else "none")
+        if f[0] in ("is", "==", "is not", "!=") and f[2] is not None and "None" in (f[1], f[2]):
+            x = f[2] if f[1] == "None" else f[1]
+            if re.match(r"^self\.\w+$", x or ""):
+                return (x, "none" if f[0] in ("is", "==") else "set")
+        return None
+
+    reported = set()
+    for g in funcs:
+        cfg = g.cfg()
+        classified = {}
+        for n in cfg.nodes:
+            if n.kind in ("entry", "exit", "raise"):
+                continue
+            items = []
+            if g is F and n is gn:
+                items.append(("fetch", "now", gc, "get_segment"))
+            for (m, when, a) in refs(g, n):
+                if m.qual in deliv:
+                    items.append(("deliv", when if m.qual in deliv_sync else "later", a, m.name))
+                elif m.qual in fetch:
+                    items.append(("fetch", when if m.qual in fetch_sync else "later", a, m.name))
+            if items:
+                classified[n.id] = items
+        if not any(k == "deliv" for items in classified.values() for (k, _w, _a, _m) in items):
+            continue
+        for nid, items in sorted(classified.items()):
+            for (k, when, a, mname) in items:
+                if k == "deliv":
+                    r.site(g, a, "second route into the writer (%s, %s)" % (mname, when))
+
+        def transfer(n, lab, nxt, st):
+            if lab == "exc":
+                return None
+            fnow, flater, dlater, facts, bad = st
+            if bad is not None:
+                return None
+            if n.kind in ("entry", "exit", "raise"):
+                return st
+            known = dict(facts)
+            for (k, when, a, mname) in classified.get(n.id, ()):
+                if k == "deliv":
+                    first = fnow or (flater if when == "later" else None)
+                    if first:
+                        return (fnow, flater, dlater, facts, (first, mname, when, id(a)))
+                    if when == "later":
+                        dlater = dlater or mname
+                else:
+                    if when == "now" and dlater:
+                        return (fnow, flater, dlater, facts, (mname, dlater, "later", id(a)))
+                    if when == "now":
+                        fnow = fnow or mname
+                    else:
+                        flater = flater or mname
+            for x in node_stores(n):
+                if x.startswith("self.") and x.count(".") == 1:
+                    v = assign_value(n, x)
+                    known.pop(x, None)
+                    if isinstance(v, ast.Constant):
+                        known[x] = "none" if v.value is None else "set"
+            nf_ = none_fact(fact(g, n, lab)) if n.kind == "test" else None
+            if nf_ is not None:
+                if known.get(nf_[0], nf_[1]) != nf_[1]:
+                    return None
+                known[nf_[0]] = nf_[1]
+            return (fnow, flater, dlater, frozenset(known.items()), None)
+        visited, parent = explore(cfg, (None, None, None, frozenset(), None), transfer)
+        r.count(len(visited))
+        for (nid, st) in sorted(visited, key=lambda t: (t[0], repr(t[1]))):
+            bad = st[4]
+            if bad is None:
+                continue
+            fetch_name, deliv_name, dwhen, aid = bad
+            key = (g.qual, fetch_name, deliv_name)
+            if key in reported:
+                continue
+            reported.add(key)
+            w = witness(cfg, parent, (nid, st))
+            at = next((a for items in classified.values() for (k, _w, a, m_) in items if id(a) == aid), None)
+            r.violation(g, g.loc(at) if at is not None else g.loc(), "%s hands a segment to the writer outside the Deferred of "
+                        "its request (%s -> %s), but on the same path the fetch route %s runs first: the position of the read "
+                        "(which only %s advances) still points at the segment that is about to be delivered, so the node is "
+                        "asked for that segment a second time; when the duplicate arrives the position has moved on and the "
+                        "read fails with WrongSegmentError.  A segment held outside the segment Deferred must reach %s before "
+                        "any fetch of the same activation (deliver first, then fetch) (path: %s)" % (
+                            short(g), deliv_name, short(W), fetch_name, short(W), short(W), w.brief()), w)
+
+
 def run(ctx: Context):
     with ctx.rule("C04.1", "R4", "per-read isolation: fresh Segmentation / DecryptingConsumer / Deferred / Cancel per call; "
                   "per-read classes store only to self.* and touch the node only through get_segment", expected=5) as r:
@@ -2933,3 +3138,7 @@ def run(ctx: Context):
                   "(_offset/_size) not yet advanced, no producer method the consumer may call from inside that call "
                   "(resumeProducing, ..) reaches get_segment on the same stack", expected=1) as r:
         run_reentrancy(ctx, r)
+    with ctx.rule("C04.16", "R1/E3/E7", "a segment reaches the writer (the method that checks it against, and advances, the read's "
+                  "position) as the success callback of its own request; on any other route into the writer (a segment held "
+                  "back while paused) no fetch route of the same activation runs ahead of the hand-over", expected=1) as r:
+        run_second_route(ctx, r)
